@@ -8,6 +8,7 @@ package anytype
 import (
 	"math"
 	"strconv"
+	"strings"
 )
 
 /*
@@ -141,6 +142,48 @@ func native(value any) any {
 }
 
 /*
+Quotes a string as a JSON string literal.
+Only the escape sequences defined by JSON are used (strconv.Quote produces Go escapes like \x01, \a, \v or \U000e0001).
+Parameters:
+  - val - string to quote.
+
+Returns:
+  - quoted string.
+*/
+func quote(val string) string {
+	const hex = "0123456789abcdef"
+	var result strings.Builder
+	result.WriteRune('"')
+	for _, char := range val {
+		switch char {
+		case '"', '\\':
+			result.WriteRune('\\')
+			result.WriteRune(char)
+		case '\b':
+			result.WriteString(`\b`)
+		case '\f':
+			result.WriteString(`\f`)
+		case '\n':
+			result.WriteString(`\n`)
+		case '\r':
+			result.WriteString(`\r`)
+		case '\t':
+			result.WriteString(`\t`)
+		default:
+			if char < 0x20 || char == 0x7f {
+				result.WriteString(`\u00`)
+				result.WriteByte(hex[char>>4])
+				result.WriteByte(hex[char&0xf])
+			} else {
+				result.WriteRune(char)
+			}
+		}
+	}
+	result.WriteRune('"')
+	return result.String()
+}
+
+/*
 Structure encapsulating a string value.
 Implements:
   - field.
@@ -190,7 +233,7 @@ Returns:
 */
 func (ego *atString) serialize() string {
 	val := ego.getVal().(string)
-	return strconv.Quote(val)
+	return quote(val)
 }
 
 /*
